@@ -37,6 +37,7 @@ def run(ck):
     r4_opened(ck, w)
     r5_copy(ck, w)
     r6_backends(ck, w)
+    r7_cycle_walk(ck, w)
 
 
 def r6_backends(ck, w):
@@ -237,3 +238,44 @@ def r5_copy(ck, w):
         ok = bool(sites) and not mc.success_reachable_avoiding(b, sites + phase_tests)
         ck.record('C02.R5', f'{short(nid)}:forwards', ok, 'forwards to permutation::keygen::Assembly::copy on every success path',
                   f'{nid} no longer records the copy constraint in the permutation argument', reach.loc(b))
+
+
+def r7_cycle_walk(ck, w):
+    """copy-constraint bookkeeping: a walk around a permutation cycle visits the whole cycle"""
+    from ..core import walk, peel, expr_str, pat_bindings
+    ck.rule('C02.R7', 'cycle walks in the permutation keygen: a `loop` that advances a cursor through the cycle table (`i = mapping[i]`) stops exactly when the '
+                      'cursor itself is back at its start value (`i == start`, tested after the advance).  Stopping on `mapping[i] == start` leaves the last '
+                      'cell of a merged cycle with a stale label; a later redundant copy then splits the cycle and the keys encode fewer equalities than '
+                      'the circuit declared (mock and real back end share this code).')
+    n_loops = 0
+    for f in w.all_fns(['proofs']):
+        if 'permutation' not in f['file'] or '::tests' in f['_nid']:
+            continue
+        for lp in [n for n in walk(f['body']) if n.get('k') == 'loop' and n.get('src') != 'while']:
+            # cursor: a local assigned from an index expression rooted in a table and indexed by itself
+            cursors = {}
+            for n in walk(lp['body']):
+                if n.get('k') == 'assign' and peel(n['lhs']).get('k') == 'local':
+                    li = peel(n['lhs'])['i']
+                    r = peel(n['rhs'])
+                    if r.get('k') == 'index' and li in {x['i'] for x in walk(r) if x.get('k') == 'local'}:
+                        cursors[li] = peel(n['lhs'])['n']
+            if not cursors:
+                continue
+            n_loops += 1
+            for li, name in cursors.items():
+                conds = [peel(n['c']) for n in walk(lp['body']) if n.get('k') == 'if' and any(x.get('k') == 'break' for x in walk(n['a']))]
+                ok = False
+                why = 'no `break` condition found'
+                for c in conds:
+                    if c.get('k') == 'bin' and c.get('op') == '==':
+                        a, b = peel(c['a']), peel(c['b'])
+                        bare = [x for x in (a, b) if x.get('k') == 'local' and x['i'] == li]
+                        other = [x for x in (a, b) if not (x.get('k') == 'local' and x['i'] == li)]
+                        if bare and other and other[0].get('k') == 'local':
+                            ok = True
+                        else:
+                            why = f'the loop stops on `{expr_str(c)[:60]}`, not on the cursor `{name}` itself returning to its start'
+                ck.record('C02.R7', f'{f["_nid"]}|cursor:{name}', ok, f'stops when `{name}` is back at its start',
+                          f'{f["_nid"]}: {why}: the walk ends one cell early (or late) and part of the cycle is not relabelled', hirq.fn_loc(f, lp))
+    ck.floor('C02.R7', 'cycle-walk loops in the permutation keygen', n_loops, 1)
